@@ -9,8 +9,8 @@ import Cqos.Props.C09
   accumulation buffer are exactly `uniteRef` folded over the input slices consumed so far
   (`c09_unite_greedy`), and on termination the remaining buffer is the last slice.  That each
   slice the fold emits is maximal is a fact about the fold alone (`uniteRef_maximal`).
-  The no-copy mode differs only in when the effects become visible (the release interleaves);
-  it is tied to this one by the stepper's exact agreement in both modes.
+  In no-copy mode the effects become visible at the release; the same relation is proved there
+  per control point (`GreedyNC`, `c09_unite_greedy_nocopy`).
 -/
 namespace Cqos.C09
 
@@ -195,5 +195,225 @@ theorem uniteRef_maximal (size : Nat) (out : List (List Nat)) (buf xs : List Nat
 /-- non-vacuity: JoinSize 4, slices of 2, 1, 3 (does not fit), 5 (oversized), 1 -/
 example : uniteFold 4 [[1, 2], [3], [4, 5, 6], [7, 8, 9, 10, 11], [12]] =
     ([[1, 2, 3], [4, 5, 6], [7, 8, 9, 10, 11]], [12]) := by decide
+
+end Cqos.C09
+
+/-! ### the same in no-copy mode
+
+In no-copy mode an emission hands the slice out and the discipline waits for the release; the
+buffer is reset (and an interrupted `process` resumed) only then.  The relation to the fold
+therefore depends on where the discipline is. -/
+namespace Cqos.C09
+
+/-- the relation between a reachable no-copy state and the fold over its consumed input -/
+def GreedyNC (s : JSt) : Prop :=
+  let F := uniteFold s.cfg.size s.consumed
+  match s.pc with
+  | .run => (s.out, s.buf) = F
+  | .await none =>
+    if s.closing then s.out = F.1 ++ [F.2] ∧ F.2 ≠ [] else s.out = F.1 ∧ F.2 = []
+  | .await (some (_, xs)) =>
+    s.out = F.1 ++ [F.2] ∧ s.buf = F.2 ∧ F.2 ≠ [] ∧ s.closing = false ∧
+      ((decide (xs.length ≥ s.cfg.size) || decide (xs.length + F.2.length > s.cfg.size)) && !F.2.isEmpty) = true
+  | .done => s.out = F.1 ++ (if F.2 = [] then [] else [F.2])
+
+/-- the part of `uniteRef` after the (possible) flush -/
+def contRef (size : Nat) (out1 : List (List Nat)) (buf1 xs : List Nat) : List (List Nat) × List Nat :=
+  if xs.length ≥ size then (out1 ++ [xs], buf1)
+  else if (buf1 ++ xs).length < size then (out1, buf1 ++ xs)
+  else if buf1 ++ xs = [] then (out1, buf1 ++ xs)
+  else (out1 ++ [buf1 ++ xs], [])
+
+theorem uniteRef_eq (size : Nat) (acc : List (List Nat) × List Nat) (xs : List Nat) :
+    uniteRef size acc xs =
+      (if ((decide (xs.length ≥ size) || decide (xs.length + acc.2.length > size)) && !acc.2.isEmpty) = true
+       then contRef size (acc.1 ++ [acc.2]) [] xs else contRef size acc.1 acc.2 xs) := by
+  by_cases hfl : ((decide (xs.length ≥ size) || decide (xs.length + acc.2.length > size)) && !acc.2.isEmpty) = true
+  · simp [uniteRef, contRef, hfl]
+  · simp [uniteRef, contRef, hfl]
+
+/-- `jcont` in no-copy mode, started where the buffer does not stand in the way (it is empty
+    when the slice is oversized): the state it leaves, described through `contRef` -/
+theorem jcont_nc (u : JSt) (id : Nat) (xs : List Nat) (t : Nat) (hc : u.cfg.noCopy = true)
+    (hbe : xs.length ≥ u.cfg.size → u.buf = []) (hcl : u.closing = false) (hrun : u.pc = .run) :
+    let r := jcont (jlog u xs) id xs t
+    let C := contRef u.cfg.size u.out u.buf xs
+    r.cfg = u.cfg ∧ r.consumed = u.consumed ++ [xs] ∧ r.closing = false ∧
+    ((r.pc = .run ∧ (r.out, r.buf) = C) ∨ (r.pc = .await none ∧ r.out = C.1 ∧ C.2 = [])) := by
+  simp only
+  unfold jcont contRef
+  simp only [jlog]
+  by_cases hov : xs.length ≥ u.cfg.size
+  · have hb := hbe hov
+    simp only [hov, if_true, jforward, jsend, hc, hb]
+    simp [hcl, hrun]
+  · simp only [hov, if_false]
+    unfold jappendPath jappend
+    simp only [List.length_append]
+    by_cases hlt : u.buf.length + xs.length < u.cfg.size
+    · simp only [hlt, if_true]
+      simp [hcl, hrun]
+    · simp only [hlt, if_false]
+      by_cases he : u.buf ++ xs = []
+      · simp only [jpass, he, if_true]
+        simp [hcl, hrun]
+      · simp only [jpass, he, if_false, jsend, hc, if_true]
+        simp [hcl, hrun]
+
+theorem greedyNC_step (s s' : JSt) (a : JAct) (hk : s.cfg.kind = .unite) (hc : s.cfg.noCopy = true)
+    (ht : s.cfg.timeout = 0) (hv : s.cfg.v1 = false) (hcr : s.pc = .run → s.closing = false)
+    (h : GreedyNC s) (hs : jstep s a = some s') :
+    GreedyNC s' ∧ s'.cfg = s.cfg ∧ (s'.pc = .run → s'.closing = false) := by
+  cases hpc : s.pc with
+  | done => cases a <;> simp [jstep, hpc, hv] at hs
+  | run =>
+    have hg : (s.out, s.buf) = uniteFold s.cfg.size s.consumed := by simpa [GreedyNC, hpc] using h
+    have hcl := hcr hpc
+    cases a with
+    | tick t => simp [jstep, hpc, ht] at hs
+    | release t => simp [jstep, hpc] at hs
+    | stop => simp [jstep, hv] at hs
+    | stopSeen t => simp [jstep, hpc, hv] at hs
+    | stopFlush t => simp [jstep, hpc, hv] at hs
+    | close t =>
+      simp only [jstep, hpc] at hs
+      by_cases hbe : s.buf = []
+      · have hp : jpass s t false none = { s with passAt := t } := by simp [jpass, hbe]
+        rw [hp] at hs
+        simp only [hpc] at hs
+        cases hs
+        refine ⟨?_, rfl, by simp⟩
+        have h2 : (uniteFold s.cfg.size s.consumed).2 = s.buf := by rw [← hg]
+        have h1 : (uniteFold s.cfg.size s.consumed).1 = s.out := by rw [← hg]
+        simp only [GreedyNC, h1, h2, hbe]
+        simp
+      · rw [jpass_nocopy_eq s t false none hbe hc] at hs
+        simp only at hs
+        cases hs
+        refine ⟨?_, rfl, by simp⟩
+        have h2 : (uniteFold s.cfg.size s.consumed).2 = s.buf := by rw [← hg]
+        have h1 : (uniteFold s.cfg.size s.consumed).1 = s.out := by rw [← hg]
+        simp only [GreedyNC, h1, h2]
+        simp [hbe]
+    | item id xs t =>
+      simp only [jstep, hpc, hk, hv, Bool.false_eq_true, false_and, if_false] at hs
+      simp only [reduceCtorEq, false_and, if_false] at hs
+      cases hs
+      have h2 : (uniteFold s.cfg.size s.consumed).2 = s.buf := by rw [← hg]
+      have h1 : (uniteFold s.cfg.size s.consumed).1 = s.out := by rw [← hg]
+      unfold jprocess
+      simp only [hk]
+      by_cases hnp : needPass s xs = true
+      · have hb : s.buf ≠ [] := by
+          simp only [needPass, Bool.and_eq_true, Bool.not_eq_true', List.isEmpty_eq_false_iff] at hnp
+          exact hnp.2
+        simp only [hnp, if_true, hc]
+        rw [jpass_nocopy_eq s t false (some (id, xs)) hb hc]
+        refine ⟨?_, rfl, by simp⟩
+        have hcond : ((decide (xs.length ≥ s.cfg.size) || decide (xs.length + s.buf.length > s.cfg.size)) && !s.buf.isEmpty) = true := by
+          simpa [needPass] using hnp
+        simp only [GreedyNC, h1, h2]
+        simp [hb, hcl, hcond]
+      · have hnp' : needPass s xs = false := by simpa using hnp
+        simp only [hnp', Bool.false_eq_true, if_false]
+        have hbe : xs.length ≥ s.cfg.size → s.buf = [] := by
+          intro hov
+          simp only [needPass, Bool.and_eq_false_iff, Bool.or_eq_false_iff, decide_eq_false_iff_not] at hnp'
+          rcases hnp' with ⟨h, _⟩ | h
+          · exact absurd hov h
+          · simpa using h
+        obtain ⟨r1, r2, r3, r4⟩ := jcont_nc s id xs t hc hbe hcl hpc
+        have hF : uniteFold s.cfg.size (s.consumed ++ [xs]) = contRef s.cfg.size s.out s.buf xs := by
+          simp only [uniteFold, List.foldl_append, List.foldl_cons, List.foldl_nil]
+          rw [show List.foldl (uniteRef s.cfg.size) ([], []) s.consumed = (s.out, s.buf) from hg.symm, uniteRef_eq]
+          have : ((decide (xs.length ≥ s.cfg.size) || decide (xs.length + s.buf.length > s.cfg.size)) && !s.buf.isEmpty) = false := by
+            simpa [needPass] using hnp'
+          simp [this]
+        refine ⟨?_, r1, fun _ => r3⟩
+        rcases r4 with ⟨hp, he⟩ | ⟨hp, ho, hb⟩
+        · simp only [GreedyNC, hp, r1, r2, hF]; exact he
+        · simp only [GreedyNC, hp, r1, r2, hF, r3]
+          simp [ho, hb]
+  | await next =>
+    cases a with
+    | item id xs t => simp [jstep, hpc] at hs
+    | tick t => simp [jstep, hpc] at hs
+    | close t => simp [jstep, hpc] at hs
+    | stop => simp [jstep, hv] at hs
+    | stopSeen t => simp [jstep, hpc, hv] at hs
+    | stopFlush t => simp [jstep, hpc] at hs
+    | release t =>
+      cases next with
+      | none =>
+        simp only [jstep, hpc, Option.some.injEq] at hs
+        subst hs
+        by_cases hcl : s.closing = true
+        · have hg : s.out = (uniteFold s.cfg.size s.consumed).1 ++ [(uniteFold s.cfg.size s.consumed).2] ∧
+              (uniteFold s.cfg.size s.consumed).2 ≠ [] := by simpa [GreedyNC, hpc, hcl] using h
+          refine ⟨?_, by split <;> rfl, by split <;> simp [hcl, jafterPass]⟩
+          split <;> simp [GreedyNC, hcl, jafterPass, hg.1, hg.2]
+        · have hcl' : s.closing = false := by simpa using hcl
+          have hg : s.out = (uniteFold s.cfg.size s.consumed).1 ∧ (uniteFold s.cfg.size s.consumed).2 = [] := by
+            simpa [GreedyNC, hpc, hcl'] using h
+          refine ⟨?_, by split <;> rfl, by split <;> simp [hcl', jafterPass]⟩
+          split
+          · rename_i hb
+            simp only [GreedyNC, hcl', Bool.false_eq_true, if_false]
+            rw [hb]; exact Prod.ext hg.1 hg.2.symm
+          · simp only [GreedyNC, hcl', Bool.false_eq_true, if_false, jafterPass]
+            exact Prod.ext hg.1 hg.2.symm
+      | some nx =>
+        obtain ⟨id, xs⟩ := nx
+        have hg : s.out = (uniteFold s.cfg.size s.consumed).1 ++ [(uniteFold s.cfg.size s.consumed).2] ∧
+            s.buf = (uniteFold s.cfg.size s.consumed).2 ∧ (uniteFold s.cfg.size s.consumed).2 ≠ [] ∧ s.closing = false ∧
+            ((decide (xs.length ≥ s.cfg.size) || decide (xs.length + (uniteFold s.cfg.size s.consumed).2.length > s.cfg.size)) &&
+              !(uniteFold s.cfg.size s.consumed).2.isEmpty) = true := by simpa [GreedyNC, hpc] using h
+        obtain ⟨g1, g2, g3, g4, g5⟩ := hg
+        have hbne : s.buf ≠ [] := by rw [g2]; exact g3
+        simp only [jstep, hpc, g4, Bool.false_eq_true, if_false, hbne, Option.some.injEq] at hs
+        subst hs
+        -- the state after the release, before the rest of `process`
+        let u : JSt := jafterPass { s with events := s.events ++ [.released], pc := .run, closing := false } t
+        change GreedyNC (jcont (jlog u xs) id xs t) ∧ (jcont (jlog u xs) id xs t).cfg = s.cfg ∧
+          ((jcont (jlog u xs) id xs t).pc = .run → (jcont (jlog u xs) id xs t).closing = false)
+        obtain ⟨r1, r2, r3, r4⟩ := jcont_nc u id xs t (by simpa [u, jafterPass] using hc)
+          (fun _ => by simp [u, jafterPass]) (by simp [u, jafterPass]) (by simp [u, jafterPass])
+        have hucfg : u.cfg = s.cfg := by simp [u, jafterPass]
+        have huc : u.consumed = s.consumed := by simp [u, jafterPass]
+        have huo : u.out = s.out := by simp [u, jafterPass]
+        have hub : u.buf = [] := by simp [u, jafterPass]
+        have hF : uniteFold s.cfg.size (s.consumed ++ [xs]) = contRef s.cfg.size u.out u.buf xs := by
+          simp only [uniteFold, List.foldl_append, List.foldl_cons, List.foldl_nil]
+          rw [uniteRef_eq]
+          change (if ((decide (xs.length ≥ s.cfg.size) || decide (xs.length + (uniteFold s.cfg.size s.consumed).2.length > s.cfg.size)) &&
+              !(uniteFold s.cfg.size s.consumed).2.isEmpty) = true then _ else _) = _
+          rw [if_pos g5, huo, hub, g1]
+          rfl
+        refine ⟨?_, by rw [r1, hucfg], fun _ => r3⟩
+        rw [hucfg] at r4
+        rcases r4 with ⟨hp, he⟩ | ⟨hp, ho, hb⟩
+        · simp only [GreedyNC, hp, r1, r2, hucfg, huc, hF]; exact he
+        · simp only [GreedyNC, hp, r1, r2, hucfg, huc, hF, r3]
+          simp [ho, hb]
+
+/-- **C09 (unite, no-copy mode, run level).** -/
+theorem c09_unite_greedy_nocopy (cfg : JCfg) (t0 : Nat) (hk : cfg.kind = .unite) (hc : cfg.noCopy = true)
+    (ht : cfg.timeout = 0) (hv : cfg.v1 = false) (acts : List JAct) (s : JSt)
+    (hr : jrun (jinit cfg t0) acts = some s) : GreedyNC s ∧ s.cfg = cfg := by
+  suffices H : ∀ (acts : List JAct) (s0 s : JSt), s0.cfg = cfg → (s0.pc = .run → s0.closing = false) → GreedyNC s0 →
+      jrun s0 acts = some s → GreedyNC s ∧ s.cfg = cfg from
+    H acts _ s rfl (fun _ => rfl) (by simp [GreedyNC, jinit, uniteFold]) hr
+  intro acts
+  induction acts with
+  | nil => intro s0 s hc0 _ hg hr; simp [jrun] at hr; subst hr; exact ⟨hg, hc0⟩
+  | cons a as ih =>
+    intro s0 s hc0 hcr hg hr
+    simp only [jrun] at hr
+    split at hr
+    · rename_i s1 hs1
+      obtain ⟨hg1, hc1, hcr1⟩ := greedyNC_step s0 s1 a (by rw [hc0]; exact hk) (by rw [hc0]; exact hc)
+        (by rw [hc0]; exact ht) (by rw [hc0]; exact hv) hcr hg hs1
+      exact ih s1 s (by rw [hc1, hc0]) hcr1 hg1 hr
+    · cases hr
 
 end Cqos.C09
